@@ -11,6 +11,9 @@ CHECKS = {
  "C03": dict(engine="interp", technique="differential property-based testing against CPython (exhaustive argument-binding table + Hypothesis-generated scoping and multi-function programs)",
    text="Exploration: all 756 signatures with <=2 parameters of each kind and every default placement, each called with every generated call shape (0-4 positionals x keyword sets incl. unknown and reserved names x * / ** unpacking), plus Hypothesis-generated name-resolution programs (nested defs to depth 3/4 over three names with every binding form, global/nonlocal, class bodies, closures in loops) and multi-function programs (recursion, decorators, defaults, classes with inheritance, bound methods, @pyscript_compile); compared with CPython on results, ordered tracer log and exception class. Exhaustive on the binding table, sampled beyond.",
    note="Trusts CPython 3.12; the documented reserved-keyword deviation is applied to the reference from the documentation's list; documented limitations and the open C03 findings (see known_findings.json) are not generated.", ref="2.C03"),
+ "C05": dict(engine="integ", technique="model-based property testing on a virtual clock (bounded-exhaustive configurations x short histories, Hypothesis-generated longer histories) against a reference timeline model",
+   text="Exploration: all 216 configurations (state_check_now x state_hold x state_hold_false x initial truth x decorator/task.wait_until x new/legacy subsystem) with every history of <= 2 (quick) / <= 3 (thorough) relevant operations, plus Hypothesis-generated timed histories up to 12 operations including unwatched and attribute-only changes, executed in the real integration on a harness-owned virtual clock; recorded run times and arguments are compared with a timeline state machine written from the documentation. Exhaustive for the bounded family, sampled beyond.",
+   note="Trusts Home Assistant's state machine and the harness clock injection (trigger.dt_now, time.monotonic of trigger.py / decorators/timing.py, loop.time()); event times keep >= 100 ms distance from every deadline so the 5 ms tolerance never decides a verdict.", ref="2.C05"),
 }
 NOT_YET = "check not built yet in this round (see DESIGN.md section 2 for the plan)"
 props = [json.loads(l)["id"] for l in open(os.path.join(V, "properties.jsonl"))]
